@@ -25,7 +25,7 @@ def main():
         if not os.path.exists(patch):
             continue
         meta = json.load(open(os.path.join(d, "meta.json")))
-        props = meta.get("checks", [meta["property"]])
+        props = [str(x).split()[0].rstrip(":") for x in meta.get("checks", [meta["property"]])]
         rc, out = sh(["git", "-C", REPO, "status", "--porcelain"])
         if out.strip():
             print("refusing: /repo has uncommitted changes"); sys.exit(2)
@@ -38,6 +38,8 @@ def main():
                 t0 = time.time()
                 rc, out = sh(["./check", p, "--tier", "quick"], cwd=VERIF)
                 lines = [l for l in out.splitlines() if l.startswith("VIOLATION") or l.startswith("%s ok" % p)]
+                if "Traceback (most recent call last)" in out and not lines:
+                    lines = ["CHECK CRASHED: " + out.strip().splitlines()[-1][:200]]
                 res[p] = {"exit": rc, "verdict": lines[-1] if lines else out[-300:], "seconds": round(time.time() - t0, 1)}
                 viol = [l for l in out.splitlines() if l.startswith("VIOLATION")]
                 if viol:
@@ -52,7 +54,7 @@ def main():
             sh(["git", "-C", REPO, "checkout", "--", "."])
             sh(["git", "-C", REPO, "clean", "-fdq", "tests"])
         json.dump(res, open(os.path.join(d, "result.json"), "w"), indent=1)
-        rows.append((sid, " ".join("%s:%s" % (p, "CAUGHT" if v["exit"] == 1 else "missed") for p, v in res.items()),
+        rows.append((sid, " ".join("%s:%s" % (p, "CAUGHT" if (v["exit"] == 1 and v["verdict"].startswith("VIOLATION")) else ("CRASHED" if v["verdict"].startswith("CHECK CRASHED") else "missed")) for p, v in res.items()),
                      " | ".join(v["verdict"][:90] for v in res.values())))
     for r in rows:
         print("%-12s %-28s %s" % r)
